@@ -124,7 +124,6 @@ EXPORT int snwprintf_s(wchar_t *restrict dest, rsize_t dmax,
 #endif
 {
     va_list ap, ap2;
-    wchar_t *p;
     int ret = -1;
     const size_t destsz = dmax * sizeof(wchar_t);
 #if !(defined(SAFECLIB_HAVE_C99) && !defined(TEST_MSVCRT))
@@ -164,29 +163,12 @@ EXPORT int snwprintf_s(wchar_t *restrict dest, rsize_t dmax,
         return -(ESZEROL);
     }
 
-#if defined(HAVE_WCSSTR) || !defined(SAFECLIB_DISABLE_EXTENSIONS)
-    if (unlikely((p = wcsstr((wchar_t *)fmt, L"%n")))) {
-        if ((p - fmt == 0) || *(p - 1) != L'%') {
-            *dest = L'\0';
-            invoke_safe_str_constraint_handler("snwprintf_s: illegal %n",
-                                               (void *)dest, EINVAL);
-            return -(EINVAL);
-        }
+    if (unlikely(safec_wfmt_has_n(fmt))) {
+        *dest = L'\0';
+        invoke_safe_str_constraint_handler("snwprintf_s: illegal %n",
+                                           (void *)dest, EINVAL);
+        return -(EINVAL);
     }
-#elif defined(HAVE_WCSCHR)
-    if (unlikely((p = wcschr(fmt, flen, L'n')))) {
-        /* at the beginning or if inside, not %%n */
-        if (((p - fmt >= 1) && *(p - 1) == L'%') &&
-            ((p - fmt == 1) || *(p - 2) != L'%')) {
-            *dest = L'\0';
-            invoke_safe_str_constraint_handler("snwprintf_s: illegal %n",
-                                               (void *)dest, EINVAL);
-            return -(EINVAL);
-        }
-    }
-#else
-#error need wcsstr or wcschr
-#endif
 
     errno = 0;
     /* C11 solves the ESNOSPC problem */
